@@ -56,6 +56,7 @@ if TYPE_CHECKING:
     from types import TracebackType
 
     from _pytask.node_protocols import PTask
+    from _pytask.session import Session
 
 
 @hookimpl
@@ -106,6 +107,14 @@ def pytask_post_parse(config: dict[str, Any]) -> None:
     capman.stop_capturing()
     capman.start_capturing()
     capman.suspend()
+
+
+@hookimpl
+def pytask_unconfigure(session: Session) -> None:
+    """Stop capturing and restore the standard streams and file descriptors."""
+    capman = session.config["pm"].get_plugin("capturemanager")
+    if capman is not None:
+        capman.stop_capturing()
 
 
 # Copied from pytest with slightly modified docstrings.
